@@ -66,9 +66,12 @@ def obj(n, q, ty, default=None, noreset=False, local=False):
     return {"n": n, "q": q, "ty": ty, "hasdefault": 0 if default is None else 1,
             "default": 0 if default is None else default, "noreset": 1 if noreset else 0, "local": 1 if local else 0}
 
-def seq_ctx(name, body, clk="clk", reset=None, coroutine=False, step=None, edge="rising"):
+def seq_ctx(name, body, clk="clk", reset=None, coroutine=False, step=None, edge="rising", onreset=None, onreset_form="ctor"):
+    """onreset: statements of a registered on_reset action; form "ctor": std.sequential(clk, reset, on_reset=f),
+    "call": std.sequential(clk, reset)(on_reset=f)"""
     return {"kind": "seq", "name": name, "clk": clk, "reset": reset or {"k": "none"},
-            "coroutine": 1 if coroutine else 0, "body": body, "step": step or {"k": "none"}, "edge": edge}
+            "coroutine": 1 if coroutine else 0, "body": body, "step": step or {"k": "none"}, "edge": edge,
+            "onreset": onreset or [], "onreset_form": onreset_form}
 
 def conc_ctx(name, body):
     return {"kind": "conc", "name": name, "clk": "", "reset": {"k": "none"}, "coroutine": 0, "body": body,
@@ -399,7 +402,19 @@ class Printer:
                     a.append(f"std.Reset(self.{r['port']}{extra})")
                 if c.get("step", {"k": "none"})["k"] != "none":
                     a.append(f"step_cond=lambda: {self.expr(c['step'])}")
-                out.append(f"        @std.sequential({', '.join(a)})")
+                call_args = ""
+                if c.get("onreset"):
+                    out.append(f"        def {c['name']}_on_reset():")
+                    nl = sorted(self.augmented(c["onreset"]))
+                    if nl:
+                        out.append("            nonlocal " + ", ".join(nl))
+                    self.stmts(c["onreset"], 3, out)
+                    out.append("")
+                    if c.get("onreset_form", "ctor") == "ctor":
+                        a.append(f"on_reset={c['name']}_on_reset")
+                    else:
+                        call_args = f"(on_reset={c['name']}_on_reset)"
+                out.append(f"        @std.sequential({', '.join(a)}){call_args}")
                 out.append(f"        {'async ' if c['coroutine'] else ''}def {c['name']}():")
             else:
                 out.append("        @std.concurrent")
